@@ -40,6 +40,14 @@ static size_t enc(const uint64_t *in, size_t n, uint8_t *dst) { uint64_t *t = ma
 size_t ctl_masked(const uint64_t *in, size_t n, uint8_t *dst) { dst[0] = 7; return enc(in, n, dst + 1) + 1; }   /* R5: 0 becomes 1 */
 size_t ctl_clean_propagate(const uint64_t *in, size_t n, uint8_t *dst) { size_t r = enc(in, n, dst + 1); if (r == 0) return 0; dst[0] = 7; return r + 1; }
 
+bool ctl_half_update(bag *b, uint32_t need) {                              /* R7: capacity updated before the allocation succeeded */
+    if (need <= b->cap) return true;
+    b->cap = need;
+    uint16_t *nv = realloc(b->vals, (size_t)b->cap * 2);
+    if (!nv) return false;
+    b->vals = nv; return true;
+}
+
 /* ---- clean ---- */
 size_t ctl_clean_joint(const uint64_t *in, size_t n, uint64_t *out) {
     uint64_t *a = malloc(n * 8), *b = malloc(n * 8);
